@@ -85,6 +85,11 @@ func (in *vfGWInst) track(evFull string) {
 			in.lpubDone = map[string]bool{}
 		}
 		in.lpubDone[f[2]] = true
+	case "lpubbatch2":
+		if in.lpubDone == nil {
+			in.lpubDone = map[string]bool{}
+		}
+		in.lpubDone[f[2]], in.lpubDone[f[4]] = true, true
 	}
 }
 
@@ -145,6 +150,8 @@ func (in *vfGWInst) Enabled() []string {
 			ok = !in.blAPI[f[1]]
 		case "lpub", "lpubbatch", "lpubgo":
 			ok = !in.lpubDone[f[2]] // labels of local publications are unique
+		case "lpubbatch2":
+			ok = !in.lpubDone[f[2]] && !in.lpubDone[f[4]]
 		case "blimpl":
 			ok = !in.last.Blacklst[f[1]]
 		case "hold":
